@@ -55,11 +55,12 @@ class Lab:
         from funsor.interpretations import eager, lazy, normalize, reflect
         from funsor.interpreter import reinterpret
         from funsor.tensor import Tensor
-        from funsor.terms import Binary, Number, Reduce, Variable
+        from funsor.terms import Binary, Funsor, Number, Reduce, Unary, Variable
 
         self.np = np
         self.funsor_file = funsor.__file__
         self.reinterpret = reinterpret
+        self.Funsor = Funsor
         self.reflect = reflect
         self.interp = {"eager": eager, "lazy": lazy, "reflect": reflect, "normalize": normalize}
         B2, B3 = Bint[2], Bint[3]        # kept: the terms lens does not track domains
@@ -115,22 +116,51 @@ class Lab:
                               ops.GetsliceOp._instance_cache, Binary._type_cache, Reduce._type_cache]
         self.intern_classes = ["ArrayType", "ProductDomain", "GetitemOp", "ReshapeOp", "SumOp", "GetsliceOp",
                                "BinaryT", "ReduceT"]
+        # terms built through PARAMETRISED ops over array domains nothing else uses: the op instance,
+        # the operand / result domains and the parametrised term type must die with the term.
+        # "_w*" are the same constructions with other parameters (another op instance, other
+        # domains), used for warming only, so that the instances the recipes make are never
+        # touched before a behaviour starts.
+        def xg(a, b):
+            return lambda s: Variable("x", Reals[a, b])[:, Variable("j", Bint[b])]
+
+        self.opterm_recipes = {
+            "XG": xg(13, 11),                                                    # Binary(GetitemOp(1), x, j)
+            "XS": lambda s: Variable("x", Reals[13, 11]).sum(1, True),           # Unary(SumOp(1, True), x)
+            "XR": lambda s: Variable("x", Reals[13, 11]).reshape((11, 13)),      # Unary(ReshapeOp((11, 13)), x)
+            "G1": lambda s: ops.GetitemOp(1),
+            "DX": lambda s: Reals[13, 11],
+            "_wXG": lambda s: Variable("x", Reals[17, 19, 23])[:, :, Variable("j", Bint[23])],
+            "_wXS": lambda s: Variable("x", Reals[17, 19, 23]).sum(2, True),
+            "_wXR": lambda s: Variable("x", Reals[17, 19, 23]).reshape((23, 19, 17)),
+            "_wG": lambda s: ops.GetitemOp(3),
+            "_wD": lambda s: Reals[17, 19, 29],
+        }
+        self.opterm_tables = [Variable._cons_cache, Binary._cons_cache, Unary._cons_cache, ArrayType._type_cache,
+                              ops.GetitemOp._instance_cache, ops.SumOp._instance_cache,
+                              ops.ReshapeOp._instance_cache, Binary._type_cache, Unary._type_cache]
+        self.opterm_classes = ["Variable", "Binary", "Unary", "ArrayType", "GetitemOp", "SumOp", "ReshapeOp",
+                               "BinaryT", "UnaryT"]
+
         # warm every code path once so that one-off caches (dispatch tables, lazily created
         # types) are filled before the baseline is taken, then park all of it in the
         # permanent generation: gc.collect() afterwards only looks at what a behaviour made
         for lens in (self.lens,):
             r = Run(self, lens, "limbo")
             for name in self.recipes(lens):
-                for i in (self.interp if lens == "terms" else [""]):
+                if lens == "opterms" and not name.startswith("_w"):
+                    continue
+                for i in ([""] if lens == "interned" or name in ("_wG", "_wD") else self.interp):
                     try:
                         r.act({"a": "Construct", "r": name, "i": i, "h": 0, "s": 0, "ad": 0})
                     except Exception:
                         pass
             for h in range(1, len(r.handles) + 1):
                 try:
-                    if lens == "terms":
+                    term = isinstance(r.handles[h - 1], Funsor)
+                    if term:
                         r.act({"a": "Reflect", "r": "", "i": "", "h": h, "s": 0, "ad": 0})
-                    r.act({"a": "Pickle", "r": "", "i": "reflect" if lens == "terms" else "", "h": h, "s": 0, "ad": 0})
+                    r.act({"a": "Pickle", "r": "", "i": "reflect" if term else "", "h": h, "s": 0, "ad": 0})
                 except Exception:
                     pass
             r.close()
@@ -138,13 +168,13 @@ class Lab:
         gc.freeze()
 
     def recipes(self, lens):
-        return self.term_recipes if lens == "terms" else self.intern_recipes
+        return {"terms": self.term_recipes, "interned": self.intern_recipes, "opterms": self.opterm_recipes}[lens]
 
     def tables(self, lens):
-        return self.term_tables if lens == "terms" else self.intern_tables
+        return {"terms": self.term_tables, "interned": self.intern_tables, "opterms": self.opterm_tables}[lens]
 
     def classes(self, lens):
-        return self.term_classes if lens == "terms" else self.intern_classes
+        return {"terms": self.term_classes, "interned": self.intern_classes, "opterms": self.opterm_classes}[lens]
 
 
 def lab(lens):
@@ -430,16 +460,18 @@ def native_run(lens, rng, length, log):
     """a random run with real deletion, recorded for Trace_ConsCache (no expectations here)"""
     L = lab(lens)
     run = Run(L, lens, "native")
-    names = sorted(L.recipes(lens))
+    names = sorted(n for n in L.recipes(lens) if not n.startswith("_"))
+    plain = ("G1", "DX")          # opterms recipes that are not built under an interpretation
     log.append({"a": "Reset", "mode": "native", "r": "", "i": "", "h": 0, "s": 0, "ad": 0, "on": ""})
     hidden = 0
     try:
         for _ in range(length):
             held = [h + 1 for h, o in enumerate(run.handles) if o is not None]
             choices = ["Construct"] * 4 + ["Collect"]
+            terms_held = [h for h in held if isinstance(run.handles[h - 1], L.Funsor)]
             if held:
                 choices += ["Drop"] * 3 + ["Pickle"]
-                if lens == "terms":
+                if terms_held:
                     choices += ["Reflect"]
             if lens == "terms":
                 choices += ["Free"] if run.slots[0] is not None else ["Alloc"] * 3
@@ -448,14 +480,16 @@ def native_run(lens, rng, length, log):
             if k == "Construct":
                 ok = [n for n in names if not (lens == "terms" and run.slots[0] is None and n in ("TA", "BIN", "RED"))]
                 a["r"] = rng.choice(ok)
-                if lens == "terms":
+                if lens == "terms" or (lens == "opterms" and a["r"] not in plain):
                     a["i"] = rng.choice(["eager", "lazy", "reflect", "normalize"])
-            elif k in ("Drop", "Reflect"):
+            elif k == "Drop":
                 a["h"] = rng.choice(held)
+            elif k == "Reflect":
+                a["h"] = rng.choice(terms_held)
             elif k == "Pickle":
                 a["h"] = rng.choice(held)
                 o = run.handles[a["h"] - 1]
-                if lens == "terms":
+                if isinstance(o, L.Funsor):
                     leaf = type(o).__name__.split("[")[0] in ("Variable", "Number", "Tensor")
                     a["i"] = rng.choice(["eager", "lazy", "reflect", "normalize"] if leaf else ["lazy", "reflect"])
                 elif not _picklable(o):
